@@ -632,6 +632,12 @@ def exhaustive_alphabet(groups, nkeys):
         p = (g, key_of(0, g), 0)
         al.append([("X", p), ("W", (-1, 2, g), 100), ("V", p, (-1, 2, g))])
     al += [[("S", "CUR")], [("AG", paths)], [("A", list(reversed(paths)), True)]]
+    # a re-scan batch (sorted) holding a file of one channel written behind the handler's back and the file of the same
+    # time of another channel (lock-step recorders: equal time keys in different groups)
+    for ga in groups:
+        for gb in groups:
+            if ga != gb and key_of(0, ga) == key_of(0, gb):
+                al.append([("W", (ga, key_of(0, ga), 0), 250), ("A", [(ga, key_of(0, ga), 0), (gb, key_of(0, gb), 0)], True)])
     # the oldest file's twin: the same file name (same time key) in the other subdirectory of the channel
     for g in groups:
         tw = (g, key_of(0, g), 1)
